@@ -634,9 +634,10 @@ class SupplyChainNetwork(object):
 
 		"""
 
-		# Add nodes to each other's predecessor and successor lists.
-		node.add_successor(successor_node)
-		successor_node.add_predecessor(node)
+		# Add nodes to each other's predecessor and successor lists (unless the edge is already there).
+		if successor_node.index not in node.successor_indices():
+			node.add_successor(successor_node)
+			successor_node.add_predecessor(node)
 
 		# Add node to network (if not already contained in it).
 		self.add_node(successor_node)
@@ -663,9 +664,10 @@ class SupplyChainNetwork(object):
 
 		"""
 
-		# Add nodes to each other's predecessor and successor lists.
-		node.add_predecessor(predecessor_node)
-		predecessor_node.add_successor(node)
+		# Add nodes to each other's predecessor and successor lists (unless the edge is already there).
+		if predecessor_node.index not in node.predecessor_indices():
+			node.add_predecessor(predecessor_node)
+			predecessor_node.add_successor(node)
 
 		# Add node to network (if not already contained in it).
 		self.add_node(predecessor_node)
